@@ -149,10 +149,19 @@ func c09Exp(c *engine.Ctx, gi int, x, y *big.Int) {
 	g := ref.GroupByID(dhIDs[gi])
 	d := dh.StrToType(dhNames[gi])
 	var pub, sh []byte
+	// the caller keeps one big.Int per role and refills it in place for every call (the library must
+	// neither remember the caller's objects across calls nor modify them)
+	cx, cy := c09CallerX[gi], c09CallerY[gi]
+	cx.Set(x)
+	cy.Set(y)
 	pi := engine.Catch(func() {
-		pub = d.GetPublicValue(new(big.Int).Set(x))
-		sh = d.GetSharedKey(new(big.Int).Set(x), new(big.Int).Set(y))
+		pub = d.GetPublicValue(cx)
+		sh = d.GetSharedKey(cx, cy)
 	})
+	if pi == nil && (cx.Cmp(x) != 0 || cy.Cmp(y) != 0) {
+		c.Violate("argument-modified", "GetPublicValue/GetSharedKey changed the caller's big.Int", cs)
+		return
+	}
 	if pi != nil {
 		c.Violate(pi.Sig(), fmt.Sprintf("group %d x=%s… panics: %s", dhIDs[gi], trunc([]byte(cs.X), 16), pi.Value), cs)
 		return
@@ -193,6 +202,9 @@ func c09Exp(c *engine.Ctx, gi int, x, y *big.Int) {
 	}
 	c.Sample("exp", map[string]interface{}{"group": dhIDs[gi], "x": string(trunc([]byte(cs.X), 24)), "y": string(trunc([]byte(cs.Y), 24)), "shared": engine.Hex(trunc(sh, 12)), "leading_zero_octets": lz})
 }
+
+var c09CallerX = []*big.Int{new(big.Int), new(big.Int)}
+var c09CallerY = []*big.Int{new(big.Int), new(big.Int)}
 
 var two128 = pow2(128)
 var two2048 = pow2(2048)
@@ -289,8 +301,15 @@ func c09Rand(c *engine.Ctx, fn string, r *engine.Run) {
 				return
 			}
 		}
-		// the number must be made of the served octets (first call, default answers only)
-		if r.Deviations() == 0 && n1 != nil {
+		// the number must be made of the served octets (whenever every read delivered stream octets:
+		// full and short reads; a reader that ignores the byte count of a short read is caught here)
+		onlyStream := true
+		for _, rec := range seam.Log {
+			if rec.Answer != engine.AnsA && rec.Answer != engine.AnsShort {
+				onlyStream = false
+			}
+		}
+		if onlyStream && n1 != nil {
 			served := seam.Served()
 			nb := n1.Bytes()
 			if !bytes.Contains(served, nb[1:]) {
